@@ -17,7 +17,7 @@ RULE = ('cases: server or client endpoint with 3 live streams (client: optionall
         'each adding a new field to the HPACK dynamic table), DATA of 0..16384 bytes with/without padding and '
         'END_STREAM, WINDOW_UPDATE, RST_STREAM, PRIORITY, PUSH_PROMISE on the reset stream and response HEADERS/DATA on '
         'the refused promised stream, in chunks; in about a third of the cases another live stream is then reset and '
-        'the peer spends that stream\'s whole window on racing DATA frames that are mostly padding. Oracle: no receive_data raises; no event for a reset or refused stream '
+        'the peer spends that stream\'s whole window on racing DATA frames that are mostly padding; one case in twelve instead runs with MAX_CLOSED_STREAMS lowered to 2..8 in a subclass, fills the closed-stream memory exactly and alternates racing frames on remembered streams with further closures. Oracle: no receive_data raises; no event for a reset or refused stream '
         'except PriorityUpdated; only RST_STREAM / WINDOW_UPDATE are emitted; the peer model is never blocked by the '
         'connection window although only racing DATA was sent; a header block on a live stream that refers to the '
         'fields indexed by the racing blocks decodes to exactly those fields. evaluations = receive_data calls; '
@@ -40,9 +40,81 @@ class PeerStream:
         self.promised = promised
 
 
+def memory_case(ch, r):
+    """The closed-stream memory at its bound (the documented class constant MAX_CLOSED_STREAMS, lowered in a
+    subclass): the endpoint remembers how the most recent MAX_CLOSED_STREAMS cleaned-up streams were closed, in
+    order of closure.  Racing frames on any of those stay at stream level however often the memory was consulted
+    before and however many closures came after (as long as the stream is still among the most recent ones)."""
+    from ..drive import h2
+    client = ch.bool()
+    cap = ch.pick([2, 3, 4, 8])
+    cls = type('SmallMemoryConnection', (h2.connection.H2Connection,), {'MAX_CLOSED_STREAMS': cap})
+    s = Solo(client, conn=cls(h2.config.H2Configuration(client_side=client)))
+    s.start()
+    recent = []          # reset and cleaned-up streams, oldest first, at most cap
+    nxt = [1]
+
+    def close_one():
+        sid = nxt[0]
+        nxt[0] += 2
+        o = s.call('send_headers', sid, REQ) if client else s.feed(wire.headers(sid, s.hblock(REQ)))
+        o2 = s.call('reset_stream', sid, wire.CANCEL) if o.ok else o
+        if not o.ok or not o2.ok:
+            r.violate('C20:harness:memory-case-setup', '%s %s' % (o.brief(), o2.brief()))
+            return False
+        s.c.open_outbound_streams
+        s.c.open_inbound_streams
+        recent.append(sid)
+        del recent[:-cap]
+        return True
+
+    for _ in range(cap + ch.int(0, 2)):
+        if not close_one():
+            return
+    races = 0
+    for stepno in range(ch.int(4, 14)):
+        if r.violations:
+            break
+        if ch.chance(150):
+            # the older half of what is remembered is asked about more often: those are the entries a memory
+            # that confuses 'recently closed' with 'recently consulted' would keep for too long
+            sid = ch.pick(recent[:max(1, len(recent) // 2)] + recent)
+            kind = ch.pick(['headers', 'data', 'wu', 'rst'])
+            if kind == 'headers':
+                # (encoded only when it is sent: the simulated peer's HPACK context advances with every block)
+                frame = wire.headers(sid, s.hblock([(b'x-late', b'%d' % stepno)] if not client else RESP),
+                                     end_stream=not client)
+            else:
+                frame = {'data': wire.data(sid, b'late', end_stream=ch.bool()),
+                         'wu': wire.window_update(sid, 10), 'rst': wire.rst_stream(sid, wire.CANCEL)}[kind]
+            o = s.feed(frame)
+            r.evals += 1
+            races += 1
+            r.step('racing', kind, 'on', sid, 'remembered', list(recent), o.brief())
+            if not o.ok:
+                r.violate('C20:%s:receive_data-raised:%s:code=%s' % ('client' if client else 'server', o.exc_name,
+                                                                    o.code),
+                          'memory of %d: %s on stream %d, remembered %r' % (cap, kind, sid, recent))
+                break
+            if any(len(e) > 1 and e[1] == sid and e[0] != 'PriorityUpdated' for e in o.events):
+                r.violate('C20:%s:event-for-reset-stream' % ('client' if client else 'server'), repr(o.events))
+            if any(f.type not in (wire.RST_STREAM, wire.WINDOW_UPDATE) for f in o.frames):
+                r.violate('C20:%s:unexpected-output' % ('client' if client else 'server'), repr(o.frames))
+        else:
+            if not close_one():
+                return
+            r.step('another stream reset and cleaned up', nxt[0] - 2, 'remembered', list(recent))
+    r.evals = max(1, r.evals)
+    r.nontrivial = races >= 3
+    r.labels.add('closed-stream-memory-at-its-bound')
+
+
 def run_case(data):
     ch = Chooser(data)
     r = Result()
+    if ch.chance(20):
+        memory_case(ch, r)
+        return r
     client = ch.bool()
     s = Solo(client)
     s.start()
